@@ -239,6 +239,7 @@ func (e *Enc) atomicMethod(site ssa.Instruction, key string, cc *ssa.CallCommon,
 	method := key[strings.LastIndex(key, ".")+1:]
 	isBool := strings.Contains(key, "atomic.Bool)")
 	cur := e.load(e.cur, l)
+	e.assume(rangeFact(cur, l.Typ), "atomic cell well typed")
 	toV := func(v Value) Value { // Go-level value -> stored representation
 		if isBool {
 			return Sc{ite(v.(Sc).T, intLit(1), intLit(0))}
@@ -291,6 +292,7 @@ func (e *Enc) atomicFunc(site ssa.Instruction, key string, cc *ssa.CallCommon, a
 	l := e.ptrLoc(cc.Args[0])
 	e.nilCheck(l.Ref, site, "atomic address")
 	cur := e.load(e.cur, l)
+	e.assume(rangeFact(cur, l.Typ), "atomic cell well typed")
 	switch {
 	case strings.HasPrefix(name, "Load"):
 		v := e.defineValue(fmt.Sprintf("atomload%d", e.nextID()), cur)
